@@ -90,6 +90,7 @@ impl Minimiser<'_> {
             let mut p = best.clone();
             for e in &mut p.epochs {
                 e.cpus = 1;
+                e.tty = false;
             }
             if p != best && self.fails(&p) {
                 best = p;
